@@ -64,6 +64,25 @@ struct PSelfRef {
 	static const bool copyable = true, tracked = false;
 };
 
+// a tracked payload whose k-th copy or move construction throws (C17 x C09: "every held object is destroyed exactly once"
+// also when building or moving the holder fails half-way - in particular no destructor may run on storage that never held
+// an object, which the ledger reports as the destruction of an object that is not alive)
+struct HolderFault {};
+static int g_throwAt = 0, g_ctorCalls = 0;
+template <int N>
+struct PThrowing {
+	unsigned char idb[4]; unsigned char pad[N - 4];
+	int id() const { int v; memcpy(&v, idb, 4); return v; }
+	explicit PThrowing(int id_) { memcpy(idb, &id_, 4); for(int i = 0; i < N - 4; ++i) pad[i] = patternByte(id_, i); ledger().born(this, TC_PAYLOAD, id_); }
+	void maybeThrow() { ++g_ctorCalls; if(g_throwAt > 0 && g_ctorCalls == g_throwAt) throw HolderFault{}; }
+	PThrowing(const PThrowing & o) { maybeThrow(); ledger().touch(&o, TC_PAYLOAD, o.id()); memcpy(idb, o.idb, 4); memcpy(pad, o.pad, N - 4); ledger().born(this, TC_PAYLOAD, id(), false, 1); }
+	PThrowing(PThrowing && o) { maybeThrow(); ledger().touch(&o, TC_PAYLOAD, o.id()); memcpy(idb, o.idb, 4); memcpy(pad, o.pad, N - 4); ledger().born(this, TC_PAYLOAD, id()); ledger().setMoved(&o); }
+	PThrowing & operator=(const PThrowing &) = delete;
+	~PThrowing() { ledger().died(this, TC_PAYLOAD, id()); }
+	bool ok(int id_) const { if(!ledger().touch(this, TC_PAYLOAD, id()) || id() != id_) return false; for(int i = 0; i < N - 4; ++i) if(pad[i] != patternByte(id_, i)) return false; return true; }
+	static const char * kind() { return "tracked, copy/move may throw"; }
+};
+
 struct Case { std::string name; void (*fn)(Ctx &, const std::string &); };
 static std::vector<Case> & cases() { static std::vector<Case> c; return c; }
 
@@ -153,6 +172,42 @@ static void testOne(Ctx & ctx, const std::string & nm0) {
 	ctx.obs(hashStr(nm));
 }
 
+// one scenario (construct from an lvalue, two moves of the holder, a queue round trip), with the k-th copy/move
+// construction of the held type throwing, for every k until a run completes without a throw
+template <size_t Cap, typename P>
+static void testThrowing(Ctx & ctx, const std::string & nm0) {
+	HarnessScope noFaults;
+	typedef eventpp::AnyData<Cap> AD;
+	int k = ctx.ex.choose(12, 12, K_OP);      // 0 = no fault (reference run), otherwise the k-th construction throws
+	ledger().reset();
+	g_ctorCalls = 0; g_throwAt = k;
+	std::string nm = nm0 + (k ? fmt(", construction #%d of the held type throws", k) : std::string(", no fault"));
+	ctx.log(nm);
+	bool thrown = false;
+	try {
+		P lv(70);
+		AD a0(lv);
+		AD a1(std::move(a0));
+		AD a2(std::move(a1));
+		if(!a2.template isType<P>() || !a2.template get<P>().ok(70)) ctx.fail("value-not-intact", nm + ": the value read back after two moves is not the stored value");
+		eventpp::EventQueue<int, void(const AD &)> q;
+		int seen = 0;
+		q.appendListener(1, [&](const AD & d) { ++seen; if(!d.template isType<P>() || !d.template get<P>().ok(70 + seen)) ctx.fail("value-not-intact", nm + ": queued value is not intact"); });
+		q.enqueue(1, P(71)); q.enqueue(1, P(72));
+		q.process();
+		q.enqueue(1, P(73));
+		q.processOne();
+		q.enqueue(1, P(79));
+	}
+	catch(const HolderFault &) { thrown = true; }
+	g_throwAt = 0;
+	if(k > 0 && !thrown && g_ctorCalls >= k) ctx.fail("exception-swallowed", nm + ": the exception thrown by the held type did not reach the caller");
+	checkLedgerErrors(ctx, "after destruction");
+	if(ledger().liveAll() != 0 && !ctx.failed) ctx.fail("held-object-not-destroyed-exactly-once", nm + ": objects still alive after every AnyData was destroyed: " + ledger().describeLive());
+	ctx.obs(hashStr(nm)); ctx.obs((uint64_t)thrown);
+}
+template <size_t Cap, int N> static void regThrowing() { cases().push_back(Case{fmt("AnyData<%zu> holding a %s object of %d bytes", Cap, PThrowing<N>::kind(), N), &testThrowing<Cap, PThrowing<N> >}); }
+
 template <size_t Cap, template <int> class PT, int N, int Max, int Step>
 struct Reg {
 	static void add() {
@@ -171,6 +226,7 @@ static void regCap() {
 	Reg<Cap, PMoveOnly, 16, Eff + 32, 8>::add();
 	Reg<Cap, PShared, 24, Eff + 32, 8>::add();
 	Reg<Cap, PSelfRef, 16, Eff + 32, 8>::add();
+	regThrowing<Cap, 8>(); regThrowing<Cap, Eff - 1>(); regThrowing<Cap, Eff>(); regThrowing<Cap, Eff + 1>(); regThrowing<Cap, Eff + 9>();
 }
 
 #ifndef VERIF_SUB
